@@ -47,6 +47,7 @@ type jmsg struct {
 	Amt     string `json:"amt"`
 	Months  uint32 `json:"months"`
 	Signers []int  `json:"signers"`
+	Nest    int    `json:"nest"`
 }
 type scripted struct {
 	Note  string  `json:"note"`
@@ -73,7 +74,7 @@ func (s *scripted) ops() []op {
 			if m.Amt != "" {
 				ma, _ = new(big.Int).SetString(m.Amt, 10)
 			}
-			out[i].msgs = append(out[i].msgs, txmsg{kind: m.Kind, a: key{m.A, m.AUp}, b: key{m.B, m.BUp}, d: m.Denom, amt: ma, months: m.Months, signers: m.Signers})
+			out[i].msgs = append(out[i].msgs, txmsg{kind: m.Kind, a: key{m.A, m.AUp}, b: key{m.B, m.BUp}, d: m.Denom, amt: ma, months: m.Months, signers: m.Signers, nest: m.Nest})
 		}
 	}
 	return out
